@@ -614,6 +614,9 @@ func (c *Client) writeLoop() {
 		body, ctype := c.encodePost(q)
 		h := c.hdr()
 		h["Content-Type"] = ctype
+		if c.sp.AcceptEncPost != "" {
+			h["Accept-Encoding"] = c.sp.AcceptEncPost
+		}
 		c.posting = true
 		c.lat()
 		req, r := c.w.newRequest(c.name, ReqSpec{Method: "POST", Path: c.path(), Query: c.query("polling"), Hdr: h, Body: body, NoCL: c.sp.NoCL})
